@@ -142,7 +142,14 @@ pub fn run_check(id: &str, tier: Tier) -> i32 {
     let mut total = Stats::default();
     let mut parts_json = vec![];
     let t0 = std::time::Instant::now();
+    // debugging aid (never used by registered commands): PV_ONLY_PART=<substring of the scenario name>
+    let only = std::env::var("PV_ONLY_PART").ok();
     for p in &chk.parts {
+        if let Some(o) = &only {
+            if !p.scenario.contains(o.as_str()) {
+                continue;
+            }
+        }
         let sc = scenario_by_name(&p.scenario, &p.params);
         let mut lim = Limits::new(p.dev_budget, p.wall_s, tier == Tier::Quick);
         lim.known = load_findings()
